@@ -58,12 +58,22 @@ def apply_transform(name, g, real):
     return transform.indicate_branches(g, real)
 
 
+# a second catalogue whose trees contain (partial) reified nodes: concept
+# have-mod-91 with :ARG1/:ARG2 relations to variables, constants and nodes
+ROLES_R = [':ARG1', ':ARG2-of', ':ARG2', ':ARG1-of']
+ATOMS_R = ['a', '7', 'b']
+CONCEPTS_R = ['have-mod-91', 'y']
+
+
 def h_transforms(model: str, n: int, k: int, source: int, **sym):
     from penman import layout
     from penman.graph import Graph
     from penman.tree import Tree
     real, ref = models.get(model)
-    node = progs.tree_program(sym, n, ROLES[model], ATOMS, CONCEPTS)
+    if sym.get('reified_cat'):
+        node = progs.tree_program(sym, n, ROLES_R, ATOMS_R, CONCEPTS_R)
+    else:
+        node = progs.tree_program(sym, n, ROLES[model], ATOMS, CONCEPTS)
     assume(well_formed(node, ref))
     g = layout.interpret(Tree(progs.copy_tree(node)), real)
     variables = sorted(g.variables())
@@ -154,6 +164,7 @@ def h_transforms(model: str, n: int, k: int, source: int, **sym):
 def _params(fixed):
     d = dict(progs.tree_params(fixed['n']))
     d['top'] = int
+    fixed = dict(fixed)
     for j in range(fixed['k']):
         d[f'x{j}'] = int
     return {k: v for k, v in d.items() if k not in fixed}
@@ -188,6 +199,15 @@ def obligations(tier: str) -> List[dict]:
                 add(m, 1, 2, src, 400)
         for x0 in range(4):
             add('default', 2, 1, 0, 400, x0=x0)
+        # trees that already contain reified nodes (constants / nodes /
+        # variables in either argument position), dereified
+        for op in (0, 1):
+            add('amr', 2, 1, 0, 400, ['edges-dereified'] if op else [], x0=1,
+                reified_cat=1, i0_op=op)
+        for ops in [(0, 1), (1, 0), (1, 1), (1, 2)]:
+            for r0 in range(len(ROLES_R)):
+                add('amr', 3, 1, 0, 400, x0=1, reified_cat=1, i0_op=ops[0],
+                    i1_op=ops[1], i0_r=r0)
         add('custom', 2, 1, 0, 400, x0=0)
         add('custom', 2, 1, 0, 400, x0=1)
     else:
@@ -204,6 +224,10 @@ def obligations(tier: str) -> List[dict]:
         for x0 in range(4):
             for ops in OPS2:
                 add('amr', 3, 1, 0, 1800, x0=x0, i0_op=ops[0], i1_op=ops[1])
+        for x0 in (0, 1, 2):
+            for ops in OPS2:
+                add('amr', 3, 2, 0, 1800, x0=x0, reified_cat=1,
+                    i0_op=ops[0], i1_op=ops[1])
     return obs
 
 
